@@ -7,7 +7,7 @@ package arp
 // C13 / C11: ARP-cache stage. A failed request passes through unchanged (no lookup, same cause); otherwise the
 // MAC is looked up for THIS request's destination address: found -> DstMAC set, no error; not found -> error.
 //@ func (*cacheReqGenerator).GenerateRequests$1
-//@   props C13 C11 C07
+//@   props C13 C11 C07 C05
 //@   observe getMAC
 //@   loop 0 row closed:  [recv requests as (rq, false) ; close result] -> exit
 //@   loop 0 row errpass: [recv requests as (rq, true) ; send result rq] when pre(rq.Err) != nil && rq.Err == pre(rq.Err) && rq.DstMAC == pre(rq.DstMAC) && rq.DstIP == pre(rq.DstIP) -> continue
@@ -97,7 +97,7 @@ package arp
 // C05: ARP request frames: broadcast Ethernet frame from the request's source MAC; who-has for the request's
 // destination address (4-byte form), sender = the request's source MAC / address, 6/4-byte address sizes
 //@ func (*PacketFiller).Fill
-//@   props C05
+//@   props C05 C11 C17
 //@   observe To4, gopacket.SerializeLayers
 //@   entry row request: [call To4(r.DstIP) as (d4) ; call gopacket.SerializeLayers(packet, bind_opt, bind_ls) as (se)]
 //@                         when ret == se && len(ls) == 2 && isptr(ls[0], layers.Ethernet) && isptr(ls[1], layers.ARP)
